@@ -351,3 +351,22 @@ class Report:
             self.pid, self.tier, cov["evaluations"], cov["distinct_nontrivial"], self.states, self.traces,
             sum(v[1] for v in hit.values()), len(unknown), ev["wall_s"]))
         return 1 if unknown else 0
+
+
+def tlc_replays(module, cfg, num, depth, seed_arg=1, timeout=600, tag="REPLAY"):
+    """Run TLC in simulation mode on a Replay_* module and return the JSON payloads it printed (spec -> impl)."""
+    r = tlc(module, cfg, workers=1, timeout=timeout, simulate=num, depth=depth, seed_arg=seed_arg)
+    out = []
+    for line in r.raw.splitlines():
+        if line.startswith('<<"%s", "' % tag):
+            body = line[len('<<"%s", ' % tag):]
+            body = body[:body.rindex(">>")]
+            try:
+                out.append(json.loads(json.loads(body)))
+            except ValueError:
+                pass
+    if not out:
+        sys.stdout.write(r.raw[-3000:])
+        raise ToolError("no %s behaviours produced by %s" % (tag, module))
+    log("TLC %s: %d behaviours for replay, %.1fs" % (module, len(out), r.wall))
+    return out, r
